@@ -42,6 +42,9 @@ func judgeHTTP(c C20Case, resp HTTPResp) *Fail {
 			return failf("constraint-violation-rejected", "the request violates a documented constraint (%s) but is answered with a ranking: %s", c.Mutant, resp.Body)
 		}
 		if c.Kind == "valid" {
+			if lib := decide([]byte(c.Body)); !lib.OK || lib.Body != resp.Body {
+				return failf("handler-equals-library", "the HTTP answer differs from the library's answer for the same body:\n http    %s\n library %s %s", resp.Body, lib.Body, lib.Err)
+			}
 			var f *Fail
 			func() {
 				defer func() {
@@ -65,7 +68,7 @@ func judgeHTTP(c C20Case, resp HTTPResp) *Fail {
 		if !hasE || !hasR || es == "" || es == "null" || es == `""` {
 			return failf("400-has-error-and-request", "status 400 without a non-empty `error` and an echoed `request`: %s", resp.Body)
 		}
-		if c.Kind == "valid" && !strings.Contains(es, "unsupported value") {
+		if c.Kind == "valid" && !(strings.Contains(es, "unsupported value") && overflowExcused([]byte(c.Body))) {
 			return failf("valid-request-answered-200", "a valid request is rejected: %s", es)
 		}
 		if c.Kind == "valid" {
@@ -89,6 +92,27 @@ func judgeHTTP(c C20Case, resp HTTPResp) *Fail {
 		return failf("status-200-or-400", "status %d: %s", resp.Code, resp.Body)
 	}
 	return nil
+}
+
+// overflowExcused: the same request, probed at library level, shows that the documented exponential anchoring
+// formula is itself not a finite float64 for the state it is applied to (numeric domain rule, DESIGN.md §10).
+func overflowExcused(body []byte) (ok bool) {
+	defer func() {
+		if recover() != nil {
+			ok = false
+		}
+	}()
+	m := parseReqM(body)
+	var bs []interface{}
+	bs = append(bs, M{"name": probeName})
+	for _, b := range asL(m["biases"]) {
+		bs = append(bs, b, M{"name": probeName})
+	}
+	pm := deepCopyM(m).(M)
+	pm["biases"] = bs
+	pb := mustJSON(pm)
+	_, rec := decideProbed(pb, false, false)
+	return expOverflowExpected(viewReq(parseReqM(pb)), rec)
 }
 
 func c20Stats(c C20Case, resp HTTPResp, name string) {
@@ -236,7 +260,14 @@ func genC20(t *rapid.T) C20Case {
 	o := GenOpts{MaxBiases: 3, ValueMode: -1, MaxAlts: 6, MaxCrit: 5, AllowProb: g.Chance(1, 4), AllowDisable: g.Chance(1, 4), Superfluous: true}
 	switch g.Int(0, 9) {
 	case 0, 1:
-		return C20Case{Kind: "valid", Body: string(mustJSON(genRequest(t, GenOpts{MaxBiases: 3, ValueMode: -1, MaxAlts: 6}).Req))}
+		req := genRequest(t, GenOpts{MaxBiases: 3, ValueMode: -1, MaxAlts: 6}).Req
+		if g.Chance(1, 3) && len(asL(req["biases"])) == 0 {
+			delete(req, "biases") // optional top-level keys may be left out
+		}
+		if g.Chance(1, 4) {
+			delete(req, "biasApplyRandomSeed")
+		}
+		return C20Case{Kind: "valid", Body: string(mustJSON(req))}
 	case 2, 3, 4:
 		gr := mutateConstraint(t, genRequest(t, GenOpts{MaxBiases: 2, ValueMode: -1, MaxAlts: 6}))
 		return C20Case{Kind: "constraint", Body: string(mustJSON(gr.Req)), Mutant: mutantOf(gr.Labels)}
